@@ -43,8 +43,9 @@ type frozenType struct {
 }
 
 type frozenFunc struct {
-	Sig    string        `json:"sig"`
-	Locals []frozenField `json:"locals,omitempty"` // params, results, locals (closures included) in declaration order
+	Sig     string        `json:"sig"`
+	Locals  []frozenField `json:"locals,omitempty"`  // params, results, locals (closures included) in declaration order
+	Callees []string      `json:"callees,omitempty"` // functions of the same package it calls (display names)
 }
 
 type frozenPkg struct {
@@ -172,11 +173,98 @@ func inventory(c *Ctx) map[string]*frozenPkg {
 				if name == "init" || name == "_" {
 					continue
 				}
+				seenCallee := map[string]bool{}
+				ast.Inspect(fd.Body, func(n ast.Node) bool {
+					ce, ok := n.(*ast.CallExpr)
+					if !ok {
+						return true
+					}
+					if f := calleeFunc(p.TypesInfo, ce); f != nil && f.Pkg() == p.Types {
+						d := funcObjDisplay(f)
+						if d != "" && d != name && !seenCallee[d] {
+							seenCallee[d] = true
+							ff.Callees = append(ff.Callees, d)
+						}
+					}
+					return true
+				})
+				sort.Strings(ff.Callees)
 				fp.Funcs[name] = ff
 			}
 		}
 	}
 	return inv
+}
+
+// funcObjDisplay: "F", "(*T).M" or "(T).M" for a function object.
+func funcObjDisplay(f *types.Func) string {
+	f = f.Origin()
+	sig, _ := f.Type().(*types.Signature)
+	if sig == nil || sig.Recv() == nil {
+		return f.Name()
+	}
+	t := sig.Recv().Type()
+	star := ""
+	if pt, ok := t.(*types.Pointer); ok {
+		t = pt.Elem()
+		star = "*"
+	}
+	nt, ok := t.(*types.Named)
+	if !ok {
+		return ""
+	}
+	return "(" + star + nt.Obj().Name() + ")." + f.Name()
+}
+
+// frozenSoleCaller: the one function of the pinned tree that called the named
+// function, when there was exactly one.
+func frozenSoleCaller(pkgPath, name string) string {
+	loadFrozenNames()
+	fp := frozenNames[pkgPath]
+	if fp == nil || fp.Funcs[name] == nil {
+		return ""
+	}
+	var callers []string
+	for d, ff := range fp.Funcs {
+		for _, cal := range ff.Callees {
+			if cal == name {
+				callers = append(callers, d)
+			}
+		}
+	}
+	if len(callers) != 1 {
+		return ""
+	}
+	return callers[0]
+}
+
+// frozenHasFunc: did the pinned tree declare this function?
+func frozenHasFunc(pkgPath, display string) bool {
+	loadFrozenNames()
+	fp := frozenNames[pkgPath]
+	return fp != nil && fp.Funcs[display] != nil
+}
+
+// frozenHasLocal: did the function of the pinned tree declare a local of this name?
+func frozenHasLocal(pkgPath, display, local string) bool {
+	loadFrozenNames()
+	fp := frozenNames[pkgPath]
+	if fp == nil || fp.Funcs[display] == nil {
+		return false
+	}
+	for _, l := range fp.Funcs[display].Locals {
+		if l.Name == local {
+			return true
+		}
+	}
+	return false
+}
+
+func loadFrozenNames() {
+	if frozenNames == nil {
+		frozenNames = map[string]*frozenPkg{}
+		_ = json.Unmarshal(frozenNamesJSON, &frozenNames)
+	}
 }
 
 func writeNames(c *Ctx, path string) error {
@@ -599,12 +687,7 @@ func unrenamed(c *Ctx) (*Ctx, []string) {
 	if os.Getenv("RARECHECK_NO_UNRENAME") != "" || len(c.Overlay) > 0 {
 		return c, nil
 	}
-	if frozenNames == nil {
-		frozenNames = map[string]*frozenPkg{}
-		if err := json.Unmarshal(frozenNamesJSON, &frozenNames); err != nil {
-			return c, nil
-		}
-	}
+	loadFrozenNames()
 	if len(frozenNames) == 0 {
 		return c, nil
 	}
